@@ -297,8 +297,14 @@ def build_ticker(spec, log=None):
     for j in range(spec["chain"]):
         chain.append(tagged_node(f"s{j}", [prev], [f"v{j}"], log, is_async=a))
         prev = f"v{j}"
-    watchers = [tagged_node(f"watch{w}", [prev] if spec["watch_data"] else [], [f"seen{w}"], log, wait_for=("ticked",), is_async=a) for w in range(spec["n_watch"])]
-    nodes = (watchers + [tick, again] + chain) if spec["watch_first"] else ([tick, again] + chain + watchers)
+    two = spec.get("two_names")  # None | "tick_first" | "ready_first": watchers also wait for a ONE-SHOT signal 'ready'
+    waits = ("ticked",) if not two else (("ticked", "ready") if two == "tick_first" else ("ready", "ticked"))
+    data = ["count"] if spec.get("watch_count") else ([prev] if spec["watch_data"] else [])
+    if spec.get("watch_count") and spec["chain"]:
+        data = ["count", prev]  # re-triggered by every iteration, first possible once the delayed value has arrived
+    watchers = [tagged_node(f"watch{w}", data, [f"seen{w}"], log, wait_for=waits, is_async=a) for w in range(spec["n_watch"])]
+    extra = [tagged_node("init", ["x"], [], log, emit=("ready",), is_async=a)] if two else []
+    nodes = (watchers + extra + [tick, again] + chain) if spec["watch_first"] else (extra + [tick, again] + chain + watchers)
     return Graph(nodes), log
 
 
